@@ -13,7 +13,7 @@ CONSTANTS
   Gaps = {"0", "2", "3", "3s"}
   MaxItems = 3
   MaxLvl = 2
-  Origins = {"message", "field", "enum", "value", "service", "method"}
+  Origins = {"message", "response", "field", "enum", "value", "service", "method"}
   Mutant = "none"
 INIT Init
 NEXT NextInputs
